@@ -87,6 +87,19 @@ fn main() {
                 std::process::exit(0)
             }
         }
+        Some("dump-private-fns") => {
+            // development aid: regenerate refdata/private_fns.json from the current (reviewed) tree
+            let files = ["parser/src/lexer.rs", "parser/src/string.rs", "parser/src/function.rs", "parser/src/soft_keywords.rs", "parser/src/parser.rs", "parser/src/context.rs", "parser/src/token.rs", "ast/src/unparse.rs", "ast/src/optimizer.rs", "ast/src/source_locator.rs", "ast/src/generic.rs", "ast/src/impls.rs", "core/src/source_code.rs", "format/src/format.rs", "format/src/cformat.rs", "literal/src/escape.rs", "literal/src/char.rs", "literal/src/float.rs", "literal/src/format.rs", "vendored/src/source_location/line_index.rs", "vendored/src/source_location/newlines.rs", "vendored/src/source_location/mod.rs"];
+            let mut out = serde_json::Map::new();
+            std::env::remove_var("VERIF_DIR");
+            for rel in files {
+                if let Ok(src) = srcmodel::load(&repo, rel) {
+                    let v: Vec<serde_json::Value> = srcmodel::private_fns(&src.file).into_iter().map(|(o, n, s)| serde_json::json!([o, n, s])).collect();
+                    out.insert(rel.to_string(), serde_json::Value::Array(v));
+                }
+            }
+            println!("{}", serde_json::to_string_pretty(&serde_json::Value::Object(out)).unwrap());
+        }
         Some("dump-fn") => {
             // development aid: normalised compact text of the functions named `name` in a source file
             let rel = args.get(2).cloned().unwrap_or_else(|| usage());
